@@ -134,7 +134,17 @@ def judge(case):
                   if k not in M.all_fields(prog)}
         with common.ambient(debug_logging=True):
             with_debug = sut.call(ev, dict(env, **logrec))
+        # extras whose values are callables (hooks a framework passes along): nobody calls what it was not asked to read;
+        # extras named ALMOST like a declared field (user_ids next to user_id): still unrelated, still ignored
+        callables = {k: v for k, v in _CALLABLES.items() if k not in M.all_fields(prog)}
+        alike = {}
+        for k in env:
+            for n in (k + "s", "p" + k, k + "_", k[:-1] if len(k) > 2 else k + "x", k.upper() if k.upper() != k else k.lower(), k + "2", "_" + k):
+                if n not in M.all_fields(prog) and n.isidentifier() and n not in gen.K1_NAMES and n != "self":
+                    alike[n] = "OTHER-%s" % n
         twins = [
+            ("callable-valued extra keyword arguments %r" % (sorted(callables),), sut.call(ev, dict(env, **callables))),
+            ("extra keyword arguments named almost like the declared fields %r" % (sorted(alike),), sut.call(ev, dict(env, **alike))),
             ("extra keyword arguments named like log-record attributes %r, DEBUG logging on" % (sorted(logrec),), with_debug),
             ("extra keyword arguments %r" % (extra,), sut.call(ev, dict(env, **extra))),
             ("record-valued extra keyword arguments %r (after the fields)" % (sorted(records),), sut.call(ev, dict(env, **records))),
@@ -224,6 +234,18 @@ def _units(case, n):
     if case["kind"] == "bigint":
         return [2 ** 62 + b + i for i in range(n)]
     return ["%010d" % (b + i) for i in range(n)]
+
+
+def _never_call_me(*a, **k):
+    raise RuntimeError("an unrelated extra argument was called")
+
+
+class _NeedsArgument:
+    def __init__(self, required):
+        self.required = required
+
+
+_CALLABLES = {"on_assign": lambda group: None, "hook": len, "factory": _NeedsArgument, "lazy": _never_call_me, "callback": print.__class__, "resolver": _never_call_me}
 
 
 def judge_vary(case):
